@@ -7,7 +7,8 @@ ID = 'C03'
 TARGETS = ['MindsVerif.Props.C03']
 THEOREMS = ['MindsVerif.Props.C03.' + n for n in (
     'C03_sqlite', 'C03_mysql', 'C03_mindsdb', 'C03_generic', 'phi3a_sqlite', 'phi3a_mysql', 'phi3a_mindsdb',
-    'phi3b_sqlite', 'phi3b_mysql', 'phi3b_mindsdb', 'ops_present')]
+    'phi3b_sqlite', 'phi3b_mysql', 'phi3b_mindsdb', 'ops_present',
+    'roundtrip_sqlite', 'roundtrip_mysql', 'roundtrip_mindsdb')]
 ASSUME = [
     'reference grouping = the stratified SQL grammar written out in OPM.addParens (DESIGN.md §C03); validated against sqlite3 by evaluation in this run',
     'OPM.parse models the grouping of an LALR parser whose decisions are SLY resolve; tied to the real tables by the kernel-checked '
